@@ -18,6 +18,25 @@ def human(size):
     return v, units[k]
 
 
+def size_shown(text, size):
+    """is `size` shown in `text`: as the exact number of bytes, or rounded with a unit (B, kB/KB/KiB, MB/MiB, GB/GiB)"""
+    import re
+    units = {"b": 1, "byte": 1, "bytes": 1, "kb": 1000, "kib": 1024, "mb": 1000 ** 2, "mib": 1024 ** 2, "gb": 1000 ** 3, "gib": 1024 ** 3,
+             "k": 1000, "m": 1000 ** 2, "g": 1000 ** 3}
+    for m in re.finditer(r"(?<![\w.])(\d+(?:[.,]\d+)?)\s*([A-Za-z]*)", text):
+        num, unit = m.group(1).replace(",", "."), m.group(2).lower()
+        if unit == "" and "." not in num and int(num) == size:
+            return True
+        if unit in units:
+            val = float(num) * units[unit]
+            # rounding to the digits printed (at least two significant decimals tolerated)
+            digits = len(num.split(".")[1]) if "." in num else 0
+            tol = units[unit] * (0.5 * 10 ** -digits + 1e-9) + 1e-9
+            if abs(val - size) <= tol * 1.2:
+                return True
+    return False
+
+
 def layer_args(l):
     return {"none": ["-l"], "compress": ["-l", "compress"], "encrypt": ["-l", "encrypt"], "both": ["-l", "compress", "-l", "encrypt"]}[l]
 
@@ -169,19 +188,16 @@ def main(tier):
                 if stdout.decode().splitlines() != names:
                     out.append((dict(rec, kind="listing-differs"), dict(ctx, got=stdout.decode()[:300])))
             elif cmd in ("listv", "listvv"):
+                # the statement fixes WHAT is shown (true size, SHA-256), not the layout: each file has a line carrying
+                # its name, its size (exact byte count, or a rounded value with a decimal or binary unit) and, for -vv,
+                # the hexadecimal digest
                 lines = stdout.decode().splitlines()
-                ok = len(lines) == len(names)
-                for ln, n in zip(lines, names):
-                    want_v, want_u = human(len(files[n]))
-                    head = ln.split(" (")[0]
-                    nm, _, sz = head.rpartition(" - ")
-                    try:
-                        val, unit = sz.split(" ")
-                        ok &= nm == n and unit == want_u and abs(float(val) - want_v) <= 0.006
-                    except ValueError:
-                        ok = False
-                    if cmd == "listvv":
-                        ok &= ln.endswith("(" + hashlib.sha256(files[n]).hexdigest() + ")")
+                ok = True
+                for n in names:
+                    cand = [ln for ln in lines if n in ln and not any(m != n and n in m and m in ln for m in names)]
+                    good = [ln for ln in cand if size_shown(ln.replace(n, " ", 1), len(files[n]))
+                            and (cmd == "listv" or hashlib.sha256(files[n]).hexdigest() in ln.lower())]
+                    ok &= bool(good)
                 if not ok:
                     out.append((dict(rec, kind="verbose-listing-differs"), dict(ctx, got=stdout.decode()[:400])))
             elif cmd == "cat":
